@@ -4,7 +4,7 @@
    "base + F*difference" with a crossover rule); mystic is tied to them by the bit-exact correspondence run (harness/props/c08.py).
    Energies are compared by an arbitrary strict weak order [ltb] (IEEE < without NaN is one); objectives are arbitrary. *)
 From Coq Require Import List Arith Bool Permutation Sorting.Sorted QArith.
-From MV Require Import Common.Num Common.Order.
+From MV Require Import Common.Num Common.Order Common.FloatOrder.
 From MV Require Import Core.NMref Core.NMref_Proofs Core.PowellRef Core.PowellRef_Proofs Core.Strategy Core.Strategy_Proofs.
 Import ListNotations.
 Close Scope Q_scope.
@@ -133,13 +133,29 @@ Print Assumptions C08_de_exp_run_length.
    evaluated trial of STRICTLY lower energy *)
 Theorem C08_de1_replace_only_if_strictly_lower : forall (N : Num) (cost : vec N -> option (T N)), StrictWeak (T N) (ltb N) ->
   forall s F CR ds st st', de1_gen N cost s F CR ds st = Some st' -> gen_ok N cost st st'.
-Proof. exact de1_gen_ok. Qed.
+Proof. intros N cost SW. exact (de1_gen_ok N cost (sw_trans _ _ SW)). Qed.
 Print Assumptions C08_de1_replace_only_if_strictly_lower.
 
 Theorem C08_de2_replace_only_if_strictly_lower : forall (N : Num) (cost : vec N -> option (T N)), StrictWeak (T N) (ltb N) ->
   forall s F CR ds st st', de2_gen N cost s F CR ds st = Some st' -> gen_ok N cost st st'.
-Proof. exact de2_gen_ok. Qed.
+Proof. intros N cost SW. exact (de2_gen_ok N cost (sw_trans _ _ SW)). Qed.
 Print Assumptions C08_de2_replace_only_if_strictly_lower.
+
+(* the same for energies that are only partially ordered - in particular IEEE comparison with NaN energies, where a trial whose energy
+   is not a number is never "strictly lower": transitivity of "strictly lower" is all the selection rule needs *)
+Theorem C08_de_replace_only_if_strictly_lower_any_transitive_order : forall (N : Num) (cost : vec N -> option (T N)),
+  (forall x y z : T N, ltb N x y = true -> ltb N y z = true -> ltb N x z = true) ->
+  forall s F CR ds st st',
+  (de1_gen N cost s F CR ds st = Some st' -> gen_ok N cost st st') /\ (de2_gen N cost s F CR ds st = Some st' -> gen_ok N cost st st').
+Proof. intros N cost Ht s F CR ds st st'. split; [apply de1_gen_ok|apply de2_gen_ok]; exact Ht. Qed.
+Print Assumptions C08_de_replace_only_if_strictly_lower_any_transitive_order.
+
+(* ... hence for the binary64 instance that is executed against /repo, with NO hypothesis: whatever the cost returns - NaN included -
+   a member is replaced only by an evaluated trial of strictly lower energy.  Uses the standard library's FloatAxioms.ltb_spec. *)
+Theorem C08_de_replace_only_if_strictly_lower_binary64 : forall (cost : vec NumF -> option (T NumF)) s F CR ds st st',
+  (de1_gen NumF cost s F CR ds st = Some st' -> gen_ok NumF cost st st') /\ (de2_gen NumF cost s F CR ds st = Some st' -> gen_ok NumF cost st st').
+Proof. intros cost. apply C08_de_replace_only_if_strictly_lower_any_transitive_order. exact float_ltb_trans. Qed.
+Print Assumptions C08_de_replace_only_if_strictly_lower_binary64.
 
 (* DE2: every trial of a generation is the strategy's trial built from the UNCHANGED generation, evaluated once *)
 Theorem C08_de2_trials_are_strategy_trials : forall (N : Num) (cost : vec N -> option (T N)) s F CR st ds c trs,
